@@ -13,7 +13,9 @@ claim('C06',
       'Every event schedule (multisets of <=2 quick / <=3 thorough events from a toggle/alter/fault alphabet x a time '
       'lattice containing t0, grid, off-grid, eps-neighbour, tf, beyond-tf, negative and >10 s times) x step '
       'configurations x resume splits is run through the real TDS loop and compared with an independent fold of the '
-      'schedule; plus every scripted convergence pattern with <=2 (3) deviations from "converged fast" at the step seam. '
+      'schedule; plus every scripted convergence pattern with <=2 (3) deviations from "converged fast" at the step seam; '
+      'plus time-series updates (1..2 TimeSeries devices, all row-time sets of size <=2 (3) from the lattice, equal and '
+      'unequal row counts, disabled devices, coincident Toggle, resume splits) against the data rows themselves. '
       'Exhaustive within those bounds, on the implementation itself.',
       'Trusts: the tiny systems are representative of the dispatch logic (which is system-independent); event times '
       'closer than 2*eps are outside the alphabet; observation wrappers on timer callbacks and callpert do not perturb the run.',
